@@ -154,7 +154,8 @@ def check_runtime(ctx, fx, cfg):
         mf = m.get(mname)
         if mf is None:
             continue
-        mb = ctx.body(fx, mf)
+        import inline
+        mb = inline.body(ctx, fx, mf, inline.not_public)  # (`let result_rx = spawn_reporting(future);`)
         sps = [t_ for _bi, t_ in mb.normal_calls() if t_.get("callee") in runtimes.SPAWN_FNS]
         ok_ = len(sps) == 1 and bool(roots(mb, sps[0]["args"][0])) and all(r_.kind == "arg" or r_.kind.startswith("call:") for r_ in roots(mb, sps[0]["args"][0])) and any(r_.kind == "arg" for r_ in roots(mb, sps[0]["args"][0]))
         ctx.require(ok_, "R18.5", "%s-uses-ambient-spawn@%s" % (mname, cfg), "%s must hand its future to the runtime's own spawn function exactly once (found %s)" % (mname, [t_["callee"] for t_ in sps]), fn=mf["def"], site=mf["loc"])
